@@ -213,6 +213,30 @@ func c06RunScript(ctx *core.Ctx, in c06Input) error {
 
 const ms = int64(1_000_000)
 
+const (
+	sec    = 1000 * ms
+	minute = 60 * sec
+	hour   = 60 * minute
+	day    = 24 * hour
+	year   = 365 * day
+	maxNs  = int64(1<<63 - 1) // the largest time.Duration / the latest instant the virtual clock can show
+)
+
+// satAdd: a + b without wrapping (virtual times stay within [0, maxNs])
+func satAdd(a, b int64) int64 {
+	if b > 0 && a > maxNs-b {
+		return maxNs
+	}
+	return a + b
+}
+
+// farOffsets: how far ahead an item can be scheduled, at every magnitude a duration can have
+// (each with its neighbours +-1 ns at the round values a limit is likely to sit on)
+var farOffsets = []int64{
+	1000, 999_999, sec - 1, sec, sec + 1, 59 * sec, minute, minute + 1, 10 * minute, hour - 1, hour, hour + 1,
+	3 * hour, day - 1, day, day + 1, 7 * day, 25 * day, 30 * day, year, 10 * year, 100 * year, 200 * year,
+}
+
 type liveItem struct{ k, due, id int64 }
 
 func c06GenScript(ctx *core.Ctx, r *hx.Rand, style int) {
@@ -220,6 +244,11 @@ func c06GenScript(ctx *core.Ctx, r *hx.Rand, style int) {
 		return
 	}
 	c0 := int64(r.Range(1, 50)) * ms
+	if r.Chance(1, 8) {
+		// a clock that has been running for hours / years
+		c0 = []int64{hour, day + 1, year, 50 * year}[r.Intn(4)] + int64(r.Range(0, 999))*ms
+	}
+	farStyle := r.Chance(1, 5) // scripts whose items are scheduled seconds .. centuries ahead
 	in := c06Input{Mode: "script", C0: c0}
 	run := newRunner(c0)
 	var obs []Obs
@@ -256,18 +285,25 @@ func c06GenScript(ctx *core.Ctx, r *hx.Rand, style int) {
 	}
 	nkeys := r.Range(1, 4)
 	pickDue := func() int64 {
+		if (farStyle && r.Chance(1, 2)) || r.Chance(1, 30) {
+			// far ahead: seconds, minutes, hours, days, years, up to the last instant there is
+			if r.Chance(1, 12) {
+				return maxNs - int64(r.Intn(2))
+			}
+			return satAdd(now, farOffsets[r.Intn(len(farOffsets))])
+		}
 		// relative to the clock, around the 0.5 ms threshold, ties with live items
 		switch r.Intn(12) {
 		case 0:
 			return now - int64(r.Range(0, 5))*ms
 		case 1:
-			return now + 499_999
+			return satAdd(now, 499_999)
 		case 2:
-			return now + 500_000
+			return satAdd(now, 500_000)
 		case 3:
-			return now + 500_001
+			return satAdd(now, 500_001)
 		case 4:
-			return now + int64(r.Range(1, 499))*1000
+			return satAdd(now, int64(r.Range(1, 499))*1000)
 		case 5, 6:
 			// tie with / next to a live item
 			if len(live) > 0 {
@@ -277,13 +313,13 @@ func c06GenScript(ctx *core.Ctx, r *hx.Rand, style int) {
 				}
 				sort.Slice(ks, func(i, j int) bool { return ks[i] < ks[j] })
 				li := live[ks[r.Intn(len(ks))]]
-				return li.due + int64(r.Range(-1, 1))*ms*int64(r.Intn(2))
+				return satAdd(li.due, int64(r.Range(-1, 1))*ms*int64(r.Intn(2)))
 			}
-			return now + ms
+			return satAdd(now, ms)
 		case 7:
-			return now + ms
+			return satAdd(now, ms)
 		default:
-			return now + int64(r.Range(1, 20))*ms
+			return satAdd(now, int64(r.Range(1, 20))*ms)
 		}
 	}
 	mkEnq := func() Step {
@@ -312,11 +348,37 @@ func c06GenScript(ctx *core.Ctx, r *hx.Rand, style int) {
 			}
 		}
 		sort.Slice(dues, func(i, j int) bool { return dues[i] < dues[j] })
-		t := now + int64(r.Range(1, 10))*ms
+		t := satAdd(now, int64(r.Range(1, 10))*ms)
 		if len(dues) > 0 {
 			d := dues[r.Intn(len(dues))]
 			if r.Chance(2, 3) {
 				d = dues[0]
+			}
+			if rem := d - now; rem > 2*sec && r.Chance(1, 2) {
+				// the item is far ahead: stop well short of it (a timer armed for less than the
+				// remaining time fires here), at a fraction of the way or a round distance from
+				// either end
+				switch r.Intn(9) {
+				case 0:
+					return now + rem/2
+				case 1:
+					return now + rem/10*9
+				case 2:
+					return now + rem/100
+				case 3:
+					return satAdd(now, []int64{sec, minute, hour, hour + 1, day, 30 * day, year}[r.Intn(7)])
+				case 4:
+					if x := d - []int64{sec, minute, hour, day}[r.Intn(4)]; x > now {
+						return x
+					}
+					return now + rem/2
+				case 5:
+					return d - 500_001
+				case 6:
+					return d - 1
+				default:
+					return d
+				}
 			}
 			switch r.Intn(8) {
 			case 0:
@@ -330,7 +392,7 @@ func c06GenScript(ctx *core.Ctx, r *hx.Rand, style int) {
 			case 4, 5:
 				t = d
 			case 6:
-				t = d + int64(r.Range(0, 3))*ms + 1
+				t = satAdd(d, int64(r.Range(0, 3))*ms+1)
 			case 7:
 				t = d - 400_000
 			}
@@ -344,7 +406,61 @@ func c06GenScript(ctx *core.Ctx, r *hx.Rand, style int) {
 	var inflight *liveItem                        // the Enqueue currently held in flight
 	inflightStyle := style == 0 && r.Chance(1, 3) // scripts built around in-flight Enqueue calls
 	gatedStyle := style == 1 || style == 3
-	if style == 1 && r.Chance(1, 5) {
+	if gatedStyle && !inflightStyle && r.Chance(1, 6) {
+		// Backlog behind a blocked callback: one item runs and its callback is held; several more
+		// items that are already due pile up; while the first callback (and then each next one) is
+		// still blocked the queue is changed under the loop's feet - an item earlier than the
+		// waiting ones arrives, a waiting one is dequeued or replaced by a later time - and the
+		// callbacks are released one by one. Order and "removed items never run" must hold.
+		if !do(Step{O: "gates", Gc: true}) {
+			return
+		}
+		first := mkEnq()
+		first.Due = now - 10*ms
+		live[first.K] = liveItem{first.K, first.Due, first.ID}
+		if !do(first) {
+			return
+		}
+		nkeys = 4
+		for i, n := 0, r.Range(2, 3); i < n; i++ {
+			e := mkEnq()
+			e.Due = now - int64(r.Range(1, 8))*ms
+			live[e.K] = liveItem{e.K, e.Due, e.ID}
+			if !do(e) {
+				return
+			}
+		}
+		for i, n := 0, r.Range(2, 5); i < n && !broken; i++ {
+			var st Step
+			switch r.Intn(4) {
+			case 0:
+				st = mkEnq()
+				st.Due = now - int64(r.Range(3, 12))*ms // earlier than (most of) the waiting ones
+				live[st.K] = liveItem{st.K, st.Due, st.ID}
+			case 1:
+				st = mkDeq()
+			case 2:
+				st = mkEnq()
+				st.Due = satAdd(now, int64(r.Range(1, 5))*ms) // a waiting key moves into the future
+				live[st.K] = liveItem{st.K, st.Due, st.ID}
+				if st.Due > maxDue {
+					maxDue = st.Due
+				}
+			default:
+				st = Step{O: "rel"}
+			}
+			if !do(st) {
+				return
+			}
+			if lastPos == 4 && r.Chance(1, 2) {
+				if !do(Step{O: "rel"}) {
+					return
+				}
+			}
+		}
+		ctx.Sink.Count("class/backlog")
+		nsteps = r.Range(2, 8)
+	} else if style == 1 && r.Chance(1, 5) {
 		// Close burst: the loop is held (in the callback, or at Now()/NewTimer()), 2..4 Close calls
 		// are made one after the other, then the loop is let go step by step
 		seam := r.Intn(3)
@@ -447,7 +563,7 @@ func c06GenScript(ctx *core.Ctx, r *hx.Rand, style int) {
 			case 0:
 				t = lastDl - 1
 			case 1:
-				t = lastDl + int64(r.Range(0, 2))*ms
+				t = satAdd(lastDl, int64(r.Range(0, 2))*ms)
 			}
 			if t < now {
 				t = now
@@ -505,7 +621,7 @@ func c06GenScript(ctx *core.Ctx, r *hx.Rand, style int) {
 		return
 	}
 	if !closed {
-		now = maxDue + 1000*ms
+		now = satAdd(maxDue, 1000*ms)
 		if now < run.clk.Peek() {
 			now = run.clk.Peek()
 		}
